@@ -62,3 +62,17 @@ PROPS['C03'] = dict(
     unit_modules=[], driver_modules=['drivers.c03'], level='other',
     level_text='tbd', level_note='tbd', assumptions=COMMON_ASSUMPTIONS,
 )
+
+PROPS['C04'] = dict(
+    unit_modules=[], driver_modules=['drivers.c04'], level='other',
+    level_text='tbd', level_note='tbd', assumptions=COMMON_ASSUMPTIONS,
+)
+PROPS['C05'] = dict(
+    unit_modules=[], driver_modules=['drivers.c04'], level='other',
+    level_text='tbd', level_note='tbd', assumptions=COMMON_ASSUMPTIONS,
+)
+
+PROPS['C06'] = dict(
+    unit_modules=[], driver_modules=['drivers.c06'], level='other',
+    level_text='tbd', level_note='tbd', assumptions=COMMON_ASSUMPTIONS, driver_budget_s=200,
+)
